@@ -151,6 +151,15 @@ def run(ctx):
         cases.append(dict(kind="pgu", y=[nd0 if m else float(v) for v, m in zip(y, miss)], nodata=nd0, n=n, **params))
         cases.append(dict(kind="pgu", y=[nd0 + c if m else float(v + c) for v, m in zip(y, miss)], nodata=nd0 + c, n=n, **params))
         plan.append(("offset", len(cases) - 2, len(cases) - 1, dict(c=c, family="strong envelope, large level")))
+    # the listed finding C06-extreme-envelope-offset: its witness, run on every pass (reported as KNOWN-FINDING while it fails)
+    findings = core.load_findings("C06")
+    for f in findings:
+        wtn = f.get("witness", {})
+        if wtn.get("kind") == "pgu":
+            yy, cc, ndw = [float(v) for v in wtn["y"]], int(wtn["c"]), float(wtn["nodata"])
+            cases.append(dict(kind="pgu", y=yy, nodata=ndw, n=len(yy), lam=float(wtn["lam"]), p=float(wtn["p"])))
+            cases.append(dict(kind="pgu", y=[v + cc for v in yy], nodata=ndw + cc, n=len(yy), lam=float(wtn["lam"]), p=float(wtn["p"])))
+            plan.append(("offset", len(cases) - 2, len(cases) - 1, dict(c=cc, family="listed finding", finding=f["id"])))
     res, log = core.run_impl("whit_impl.py", dict(kernels=cases), timeout=3000)
     if res is None:
         ctx.violation("implementation run failed", dict(kind="impl-crash", log=log[-3000:]), found_input=False)
@@ -223,6 +232,16 @@ def run(ctx):
         diff = [abs(a - b) for a, b in zip(expect, r2["out"])]
         ones = sum(1 for d in diff if d == 1)
         dist["off_by_one_cells"] += ones
+        if info.get("finding"):
+            # a listed finding is identified by its signature: extreme envelope and the 10-pass cap reached on either series
+            extreme = c.get("p") is not None and (c["p"] >= 0.99 or c["p"] <= 0.01)
+            capped = max(r.get("passes") or 0, r2.get("passes") or 0) >= 11
+            if max(diff) > 1 and extreme and capped:
+                ctx.known_finding("offset clause fails for an extreme envelope whose reweighting does not settle in 10 passes (listed finding %s): "
+                                  "ws2dpgu(y + %d) - %d differs from ws2dpgu(y) by up to %d units on y=%s, lambda=%g, p=%g; witness still fails"
+                                  % (info["finding"], info["c"], info["c"], max(diff), [int(v) for v in c["y"]], c["lam"], c["p"]))
+                ctx.notes["known_finding_hits"] = ctx.notes.get("known_finding_hits", 0) + 1
+                continue
         if max(diff) > 1 or ones > max(1, c["n"] // 50):
             spec_fail.append((dict(a=describe(i), b=describe(j), relation=rel, **info),
                               "%s does not commute with the smoother: %d cells differ (max %d), more than rounding ties can explain"
